@@ -9,6 +9,7 @@ import LA.Drive.ReadAhead
 import LA.Drive.ReadObs
 import LA.Drive.Pm
 import LA.Drive.Match
+import LA.Drive.SafeWrite
 open LA
 
 def engines : List (String × Engine) := [
@@ -19,7 +20,9 @@ def engines : List (String × Engine) := [
   ("trunc", LA.ReadObs.engineTrunc),
   ("rd", LA.ReadObs.engineRd),
   ("pm", LA.Pm.engine),
-  ("match", LA.Match.engine)
+  ("match", LA.Match.engine),
+  ("safe", LA.SafeWrite.engine),
+  ("safeorc", LA.SafeWrite.oracleEngine)
 ]
 
 partial def loop (e : Engine) (h : IO.FS.Stream) (out : IO.FS.Stream) (s : e.σ) : IO Unit := do
